@@ -200,12 +200,13 @@ def _load_ns(name):
     from basilisp.lang import runtime, symbol as sym
     _current[0] = name
     _pairs[name] = []
-    mod = sys.modules.get(name)
+    pyname = name.replace("-", "_")          # the module of a namespace is named by its munged name
+    mod = sys.modules.get(pyname)
     try:
         if mod is not None:
             importlib.reload(mod)
         else:
-            importlib.import_module(name)
+            importlib.import_module(pyname)
     finally:
         _current[0] = "other"
     return _pairs[name]
